@@ -627,9 +627,14 @@ def check_positions(chk, tus, it, vts):
             good = [p for p in paths if p.ret == 1]
             ok = len(good) == 1 and len(recorded) >= 1 and recorded[-1][0] == vts[tname] and \
                 isinstance(recorded[-1][1], dict) and recorded[-1][1].get(field) == tok
-            chk.expect(ok, 'R07.6', '%s.const:constant-expression' % tname,
-                       'wasmCWriteConstantExpr does not render %s.const through wasmCWriteLiteral(type=%s, the decoded '
-                       'value): recorded %r' % (tname, tname, recorded), 'wasmCWriteConstantExpr/%s.const' % tname)
+            if not ok:
+                # not one path through wasmCWriteLiteral (e.g. the constant is printed directly): decided on the boundary bit patterns
+                bad = concrete_const_family(it, recorded, enc, tname, tag, field, vts, position='constant-expression')
+                chk.expect(not bad, 'R07.6', '%s.const:constant-expression' % tname,
+                           'wasmCWriteConstantExpr does not render %s.const through wasmCWriteLiteral(type=%s, the decoded value), and %s'
+                           % (tname, tname, bad), 'wasmCWriteConstantExpr/%s.const' % tname)
+            else:
+                chk.ok('R07.6', '%s.const:constant-expression' % tname)
             # function bodies
             del recorded[:]
             paths = it.explore(dispatch_setup(it, [('byte', enc), (tag, tok), ('byte', 0x0B)], ['i32']))
@@ -720,7 +725,7 @@ def c_constant_bits(text, tname):
     return None
 
 
-def concrete_const_family(it, recorded, enc, tname, tag, field, vts):
+def concrete_const_family(it, recorded, enc, tname, tag, field, vts, position='body'):
     """first boundary bit pattern whose function-body rendering is neither delegated to wasmCWriteLiteral nor a recognisable C
     constant with the same bits; None when all patterns are fine"""
     old = getattr(it, 'union_endian', None)
@@ -728,8 +733,15 @@ def concrete_const_family(it, recorded, enc, tname, tag, field, vts):
     try:
         for bits in boundary_patterns(tname):
             del recorded[:]
+            def setup_ce(bits=bits):
+                sb = {'string': 0, 'length': 0, 'capacity': 0}
+                cell = {'v': sb}
+                emit._sb_init(it, [Ptr(cell, 'v')], None)
+                mod = {'v': it.zero_init('struct WasmModule')}
+                return ('wasmCWriteConstantExpr', [Ptr(cell, 'v'), Ptr(mod, 'v'), {'data': unk('d'), 'length': unk('l')}],
+                        {'sb': sb, 'stream': emit.Stream([('byte', enc), (tag, bits)])})
             try:
-                paths = it.explore(dispatch_setup(it, [('byte', enc), (tag, bits), ('byte', 0x0B)], ['i32']))
+                paths = it.explore(dispatch_setup(it, [('byte', enc), (tag, bits), ('byte', 0x0B)], ['i32']) if position == 'body' else setup_ce)
             except pe.PEError as e:
                 raise AnalysisBroken('%s.const with immediate 0x%X: %s' % (tname, bits, e))
             good = [p for p in paths if p.ret == 1]
@@ -742,7 +754,7 @@ def concrete_const_family(it, recorded, enc, tname, tag, field, vts):
                     continue
                 return 'for the immediate 0x%X wasmCWriteLiteral receives %r' % (bits, recorded[-1])
             text = good[0].state['sb']['_text'].render()
-            m = re.search(r'=\s*([^;=]+);', text)
+            m = re.search(r'=\s*([^;=]+);', text) if position == 'body' else re.fullmatch(r'\s*(.+?)\s*', text, re.S)
             val = c_constant_bits(m.group(1), tname) if m else None
             if val is None:
                 raise AnalysisBroken('%s.const with immediate 0x%X emits %r: constant form not recognised' % (tname, bits, text))
